@@ -81,7 +81,7 @@ func hostOf(addr string) string {
 func (m *c11Model) apply(o c11Op) string {
 	switch o.Kind {
 	case "add":
-		if strings.Contains(o.Addr, "%zz") || strings.Contains(o.Addr, "[::1") || o.Name == "" {
+		if strings.Contains(o.Addr, "%zz") || strings.Contains(o.Addr, "[::1") || o.Name == "" || o.Addr == "" {
 			return "400"
 		}
 		w := o.Weight
@@ -198,6 +198,8 @@ var c11Ops = []c11Op{
 	{Kind: "add", Name: "a", Addr: "http://a2.test:80", Weight: -2}, // below 1: counts (and is listed) as 1
 	{Kind: "add", Name: "b", Addr: "http://bb.test:80", Weight: 0},
 	{Kind: "add", Name: "c", Addr: "http://%zz"},
+	{Kind: "add", Name: "", Addr: "http://nn.test:80", Weight: 1}, // a backend needs a name and an address: refused, nothing changes
+	{Kind: "add", Name: "d", Addr: ""},
 	{Kind: "remove", Name: "a"},
 	{Kind: "remove", Name: "b0"},
 	{Kind: "remove", Name: "absent"},
